@@ -10,6 +10,10 @@ open Garnish Gen Garnish.Spec
 
 variable {F : Type}
 
+/-- a root that stands for a nested `{}` body is terminated by `EndExpression` and is its own containing
+expression -/
+def RefOK (r : Root F) : Prop := ∀ id, r.kind = .ref id → r.containing = r.patch ∧ r.term = [(.endExpression, none)]
+
 /-- `s'` comes after `s` by emitting main-line code: everything present stays, new pending roots have new
 jump entries -/
 structure Pre (s s' : LState F) : Prop where
@@ -20,7 +24,7 @@ structure Pre (s s' : LState F) : Prop where
   jumps : ∀ i, i < s.jumps.size → s'.jumps[i]? = s.jumps[i]?
   jsize : s.jumps.size ≤ s'.jumps.size
   pend : ∀ r ∈ s'.pending, r ∈ s.pending ∨
-    (s.jumps.size ≤ r.patch ∧ r.patch < s'.jumps.size ∧ r.containing < s'.jumps.size)
+    (s.jumps.size ≤ r.patch ∧ r.patch < s'.jumps.size ∧ r.containing < s'.jumps.size ∧ RefOK r)
   keep : ∀ r ∈ s.pending, r ∈ s'.pending
   done : s'.done = s.done
 
@@ -38,11 +42,11 @@ theorem Pre.trans {a b c : LState F} (h1 : Pre a b) (h2 : Pre b c) : Pre a c whe
   pend r hr := by
     have j1 := h1.jsize
     have j2 := h2.jsize
-    rcases h2.pend r hr with h | ⟨ha, hb, hc⟩
-    · rcases h1.pend r h with h' | ⟨ha, hb, hc⟩
+    rcases h2.pend r hr with h | ⟨ha, hb, hc, hd⟩
+    · rcases h1.pend r h with h' | ⟨ha, hb, hc, hd⟩
       · exact .inl h'
-      · exact .inr ⟨ha, by omega, by omega⟩
-    · exact .inr ⟨by omega, hb, hc⟩
+      · exact .inr ⟨ha, by omega, by omega, hd⟩
+    · exact .inr ⟨by omega, hb, hc, hd⟩
   keep r hr := h2.keep r (h1.keep r hr)
   done := by rw [h2.done, h1.done]
 
@@ -81,7 +85,7 @@ theorem Pre.pushJump (s : LState F) (t : Nat) : Pre s (s.pushJump t) where
 
 /-- pushing a root whose placeholder is the most recent jump entry or an earlier new one -/
 theorem Pre.pushRootAfter {s0 s : LState F} (h : Pre s0 s) (r : Root F) (hp : s0.jumps.size ≤ r.patch)
-    (hp2 : r.patch < s.jumps.size) (hc : r.containing < s.jumps.size) : Pre s0 (s.pushRoot r) where
+    (hp2 : r.patch < s.jumps.size) (hc : r.containing < s.jumps.size) (hr : RefOK r) : Pre s0 (s.pushRoot r) where
   instrs := h.instrs
   isize := h.isize
   consts := h.consts
@@ -91,10 +95,41 @@ theorem Pre.pushRootAfter {s0 s : LState F} (h : Pre s0 s) (r : Root F) (hp : s0
   pend r' hr' := by
     simp only [LState.pushRoot, List.mem_cons] at hr'
     rcases hr' with rfl | hr'
-    · exact .inr ⟨hp, hp2, hc⟩
+    · exact .inr ⟨hp, hp2, hc, hr⟩
     · exact h.pend r' hr'
   keep r' hr' := by simp only [LState.pushRoot, List.mem_cons]; exact .inr (h.keep r' hr')
   done := h.done
+
+/-- append-only part of `Pre` (no claim about which roots are new) -/
+structure App (s s' : LState F) : Prop where
+  instrs : ∀ i, i < s.instrs.size → s'.instrs[i]? = s.instrs[i]?
+  isize : s.instrs.size ≤ s'.instrs.size
+  consts : ∀ i, i < s.consts.size → s'.consts[i]? = s.consts[i]?
+  csize : s.consts.size ≤ s'.consts.size
+  jumps : ∀ i, i < s.jumps.size → s'.jumps[i]? = s.jumps[i]?
+  jsize : s.jumps.size ≤ s'.jumps.size
+  keep : ∀ r ∈ s.pending, r ∈ s'.pending
+
+theorem Pre.toApp {s s' : LState F} (h : Pre s s') : App s s' :=
+  ⟨h.instrs, h.isize, h.consts, h.csize, h.jumps, h.jsize, h.keep⟩
+
+theorem App.refl (s : LState F) : App s s := (Pre.refl s).toApp
+
+theorem App.trans {a b c : LState F} (h1 : App a b) (h2 : App b c) : App a c where
+  instrs i hi := by rw [h2.instrs i (by have := h1.isize; omega), h1.instrs i hi]
+  isize := Nat.le_trans h1.isize h2.isize
+  consts i hi := by rw [h2.consts i (by have := h1.csize; omega), h1.consts i hi]
+  csize := Nat.le_trans h1.csize h2.csize
+  jumps i hi := by rw [h2.jumps i (by have := h1.jsize; omega), h1.jumps i hi]
+  jsize := Nat.le_trans h1.jsize h2.jsize
+  keep r hr := h2.keep r (h1.keep r hr)
+
+theorem App.push (s : LState F) (i : Instruction) (d : Option Nat) : App s (s.push i d) := (Pre.push s i d).toApp
+theorem App.pushConst (s : LState F) (i : Instruction) (v : Val F) : App s (s.pushConst i v) := (Pre.pushConst s i v).toApp
+theorem App.pushJump (s : LState F) (t : Nat) : App s (s.pushJump t) := (Pre.pushJump s t).toApp
+theorem App.pushRoot (s : LState F) (r : Root F) : App s (s.pushRoot r) :=
+  ⟨fun _ _ => rfl, Nat.le_refl _, fun _ _ => rfl, Nat.le_refl _, fun _ _ => rfl, Nat.le_refl _,
+   fun r' hr' => by simp only [LState.pushRoot, List.mem_cons]; exact .inr hr'⟩
 
 /-! ### sizes -/
 
@@ -118,6 +153,20 @@ theorem Pre.pushRootAfter {s0 s : LState F} (h : Pre s0 s) (r : Root F) (hp : s0
 /-- the arm bodies collected by `emitArms`: their placeholders are new jump entries -/
 def ItemsOK (lo hi : Nat) (items : List (Expr F × Nat)) : Prop := ∀ it ∈ items, lo ≤ it.2 ∧ it.2 < hi
 
+theorem condTail_pre {cur : Nat} {onTrue : Bool} {t : Expr F} {s1 : LState F} (hc : cur < s1.jumps.size) :
+    Pre s1 (condTail cur onTrue t s1) ∧ (condTail cur onTrue t s1).instrs.size = s1.instrs.size + 2 := by
+  simp only [condTail]
+  refine ⟨?_, by simp⟩
+  exact Pre.trans (Pre.pushRootAfter ((Pre.pushJump _ 0).trans ((Pre.push _ _ _).trans (.push _ _ _))) _
+    (Nat.le_refl _) (by simp) (by simp; omega) (fun _ h => by simp at h)) (.pushJump _ _)
+
+theorem logicalTail_pre {cur : Nat} {instr : Instruction} {r : Expr F} {s1 : LState F} (hc : cur < s1.jumps.size) :
+    Pre s1 (logicalTail cur instr r s1) ∧ (logicalTail cur instr r s1).instrs.size = s1.instrs.size + 1 := by
+  simp only [logicalTail]
+  refine ⟨?_, by simp⟩
+  exact Pre.trans (Pre.pushRootAfter ((Pre.pushJump _ 0).trans (.push _ _ _)) _
+    (Nat.le_refl _) (by simp) (by simp; omega) (fun _ h => by simp at h)) (.pushJump _ _)
+
 theorem finishChain_pre {s s2 : LState F} {items : List (Expr F × Nat)} {cur : Nat} (p : Pre s s2)
     (ok : ItemsOK s.jumps.size s2.jumps.size items) (hc : cur < s2.jumps.size) :
     Pre s (finishChain cur s2 items) ∧ (finishChain cur s2 items).instrs.size = s2.instrs.size := by
@@ -134,7 +183,7 @@ theorem finishChain_pre {s s2 : LState F} {items : List (Expr F × Nat)} {cur : 
       · simp only [armRoots, List.mem_reverse, List.mem_map] at hr
         obtain ⟨it', hin, rfl⟩ := hr
         have := ok it' hin
-        exact .inr ⟨this.1, by simp; omega, by simp; omega⟩
+        exact .inr ⟨this.1, by simp; omega, by simp; omega, fun _ h => by simp at h⟩
       · exact pj.pend r hr
     · intro r hr
       simp only [List.mem_append]
@@ -151,6 +200,7 @@ theorem emit_pre (root cur : Nat) : ∀ (e : Expr F) (s : LState F), cur < s.jum
     simp only [emit, len]
     refine ⟨?_, by simp⟩
     exact Pre.pushRootAfter ((Pre.pushJump s 0).trans (.pushConst _ _ _)) _ (Nat.le_refl _) (by simp) (by simp)
+      (fun _ _ => ⟨rfl, rfl⟩)
   | .unary op x, s, hc => by
     obtain ⟨p1, z1⟩ := emit_pre root cur x s hc
     simp only [emit, len]
@@ -176,25 +226,22 @@ theorem emit_pre (root cur : Nat) : ∀ (e : Expr F) (s : LState F), cur < s.jum
     exact ⟨p1.trans (.push _ _ _), by simp [z1]; omega⟩
   | .cond onTrue c t, s, hc => by
     obtain ⟨p1, z1⟩ := emit_pre root cur c s hc
-    have j1 := p1.jsize
+    obtain ⟨p2, z2⟩ := condTail_pre (cur := cur) (onTrue := onTrue) (t := t) (s1 := emit root cur c s)
+      (by have := p1.jsize; omega)
     simp only [emit, len]
-    refine ⟨?_, by simp [z1]; omega⟩
-    refine Pre.trans (Pre.pushRootAfter (p1.trans ((Pre.pushJump _ 0).trans ((Pre.push _ _ _).trans (.push _ _ _)))) _
-      j1 (by simp) (by simp; omega)) (.pushJump _ _)
+    exact ⟨p1.trans p2, by rw [z2, z1]; omega⟩
   | .and l r, s, hc => by
     obtain ⟨p1, z1⟩ := emit_pre root cur l s hc
-    have j1 := p1.jsize
+    obtain ⟨p2, z2⟩ := logicalTail_pre (cur := cur) (instr := .and) (r := r) (s1 := emit root cur l s)
+      (by have := p1.jsize; omega)
     simp only [emit, len]
-    refine ⟨?_, by simp [z1]⟩
-    refine Pre.trans (Pre.pushRootAfter (p1.trans ((Pre.pushJump _ 0).trans (.push _ _ _))) _
-      j1 (by simp) (by simp; omega)) (.pushJump _ _)
+    exact ⟨p1.trans p2, by rw [z2, z1]; omega⟩
   | .or l r, s, hc => by
     obtain ⟨p1, z1⟩ := emit_pre root cur l s hc
-    have j1 := p1.jsize
+    obtain ⟨p2, z2⟩ := logicalTail_pre (cur := cur) (instr := .or) (r := r) (s1 := emit root cur l s)
+      (by have := p1.jsize; omega)
     simp only [emit, len]
-    refine ⟨?_, by simp [z1]⟩
-    refine Pre.trans (Pre.pushRootAfter (p1.trans ((Pre.pushJump _ 0).trans (.push _ _ _))) _
-      j1 (by simp) (by simp; omega)) (.pushJump _ _)
+    exact ⟨p1.trans p2, by rw [z2, z1]; omega⟩
   | .seq a b, s, hc => by
     obtain ⟨p1, z1⟩ := emit_pre root cur a s hc
     obtain ⟨p2, z2⟩ := emit_pre root cur b ((emit root cur a s).push .updateValue none) (by have := p1.jsize; simp; omega)
@@ -225,21 +272,16 @@ theorem emit_pre (root cur : Nat) : ∀ (e : Expr F) (s : LState F), cur < s.jum
     simp only [emit, len]
     exact ⟨((((Pre.pushConst s _ _).trans p1).trans p2).trans (.push _ _ _)).trans (.push _ _ _),
       by simp [z1, z2]; omega⟩
-  | .chain arms none, s, hc => by
-    obtain ⟨p1, z1, ok1⟩ := emitArms_pre root cur arms s hc
+  | .chain [] none, s, hc => by
+    simp only [emit, emitArms, chainNoFinal, finishChain]
+    exact ⟨.push _ _ _, by rw [len_chain]; simp [lenArms]⟩
+  | .chain (arm :: rest) none, s, hc => by
+    obtain ⟨p1, z1, ok1⟩ := emitArms_pre root cur (arm :: rest) s hc
     have j1 := p1.jsize
-    simp only [emit]
+    simp only [emit, chainNoFinal]
     rw [len_chain]
-    have h2 : Pre (emitArms root cur arms s).1 (chainNoFinal arms (emitArms root cur arms s).1) ∧
-        (chainNoFinal arms (emitArms root cur arms s).1).instrs.size =
-          (emitArms root cur arms s).1.instrs.size + (match arms with | [] => 1 | _ :: _ => 0) := by
-      cases arms with
-      | nil => exact ⟨.push _ _ _, by simp [chainNoFinal]⟩
-      | cons a as => exact ⟨.refl _, by simp [chainNoFinal]⟩
-    obtain ⟨p2, z2⟩ := h2
-    obtain ⟨p3, z3⟩ := finishChain_pre (p1.trans p2) (fun it hit => by
-      have := ok1 it hit; have := p2.jsize; omega) (cur := cur) (by have := p2.jsize; omega)
-    exact ⟨p3, by rw [z3, z2, z1]; simp only; omega⟩
+    obtain ⟨p3, z3⟩ := finishChain_pre p1 ok1 (cur := cur) (by omega)
+    exact ⟨p3, by rw [z3, z1]; simp⟩
   | .chain arms (some e), s, hc => by
     obtain ⟨p1, z1, ok1⟩ := emitArms_pre root cur arms s hc
     have j1 := p1.jsize
